@@ -70,7 +70,7 @@ CLAIMED = {
     "C12": ("C12_fold_ascii_only (256x256 reflection) / C12_str_fold / C12_non_ascii_exact / C12_flag / C12_insensitive_iff / C12_sensitive_exact / "
             "C12_unicode_examples: eq_ignore_ascii_case is equality up to bit 0x20 on ASCII letters only; the effective flag is the variant's value else "
             "the enum's; insensitive variants match iff equal after ASCII folding, others exactly. " + TIE, "Strings are UTF-8 byte lists.", TECH, "DESIGN.md §7 C12"),
-    "C13": ("C13_methods / C13_partition / C13_disabled / C13_try_as: exactly one is_* predicate (named is_<snakify ident>) is true for a value of an "
+    "C13": ("C13_methods / C13_one_per_iterated / C13_partition / C13_disabled / C13_try_as: exactly one is_* predicate (named is_<snakify ident>) is true for a value of an "
             "enabled variant and none for a disabled one; try_as_* / _ref / _mut return Some(all fields in order) exactly on their own tuple variant. "
             + TIE + "Method names come from the model and are called (a naming difference is a compile error); _mut writes are re-read.",
             "Method names are assumed pairwise distinct.", TECH, "DESIGN.md §7 C13"),
